@@ -220,7 +220,7 @@ fn c04_messages_unknown_block() {
 /// here, which the unwinding assertion reports; with free size fields the skip target is symbolic
 /// and CBMC does not get through the re-decoding.
 #[kani::proof]
-#[kani::unwind(12)]
+#[kani::unwind(6)] // small on purpose: a loop that makes no progress is reported after 6 rounds instead of 12
 #[kani::stub(alloc::fmt::format, crate::stubs::fmt_format)]
 #[kani::stub(alloc::alloc::alloc, crate::stubs::alloc_capped)]
 #[kani::stub(alloc::alloc::alloc_zeroed, crate::stubs::alloc_zeroed_capped)]
